@@ -15,6 +15,7 @@ TRUSTED = ['rustc MIR construction (nightly)', 'pdb-facts driver', 'rule engine 
 
 
 def run(ctx):
+    shared.counted_changes_are_all_applied(ctx, '8')
     F = ctx.F
     # 1. removals of counted keys are not mirrored in the overlay
     for fn, ins in (('db::IndexedChangeSet::copy_to_overlay', ['re:HashMap.*::insert$']), ('btree::commit_overlay::BTreeChangeSet::copy_to_overlay', ['re:BTreeMap.*::insert$'])):
@@ -194,6 +195,31 @@ def counter_protocol(ctx, p):
                     sls = [backward_slice(cr, [op_place(o)]) for o in ops if op_place(o) is not None]
                     if any(any(re.search(r'read_rc$', c) for c in sl.calls) for sl in sls):
                         why = why or 'counter == 0'
+            # the arithmetic may live in a pure helper `fn(counter, delta) -> Option<u32>`: Ok(false) on its None edge, where the
+            # helper answers None only on the equal edge of (new counter == 0) of a value derived from its parameters
+            if why is None and t['k'] == 'switch' and d and d[2] == 'assign' and d[3]['r']['k'] == 'discr':
+                src = d[3]['r']['p'][0]
+                sd = cr.defs().get(src, [])
+                if len(sd) == 1 and sd[0][2] == 'call' and 'Option<' in sd[0][3].get('rty', '') and 0 in t.get('vals', []):
+                    none_t = t['ts'][t['vals'].index(0)]
+                    hn = [x for x in call_names(sd[0][3]) if x in F.bodies]
+                    fed = any(any(re.search(r'read_rc$', c) for c in backward_slice(cr, [op_place(a)]).calls) for a in sd[0][3]['a'] if op_place(a) is not None)
+                    if hn and fed and none_t in yes:
+                        hb = F.bodies[hn[0]]
+                        nones = [bi for bi in hb.normal_blocks() for st in hb.blocks[bi]['s']
+                                 if st['k'] == 'assign' and st['p'] == [0] and st['r']['k'] == 'agg' and st['r']['ak'].endswith('Option::None')]
+                        good = bool(nones)
+                        for nb_ in nones:
+                            g = False
+                            for (sw2, yes2, no2) in hb.control_deps(nb_):
+                                pol2 = lib.eq_polarity(hb, sw2)
+                                if pol2 and 0 in [lib.const_of(hb, o) for o in pol2[2]] and pol2[0] in yes2 and pol2[1] in no2:
+                                    sl2 = [backward_slice(hb, [op_place(o)]) for o in pol2[2] if op_place(o) is not None]
+                                    if any(x.params for x in sl2):
+                                        g = True
+                            good = good and g
+                        if good:
+                            why = 'counter == 0 (in %s)' % hn[0]
         ctx.ob(p + 'b removed-only-at-zero #%d' % n, 'K3-guard', cr.path, 'Ok(false) is returned only for a tombstone or on the equal edge of (new counter == 0)', why is not None, str(why), cr.loc(f))
     # c: the number written derives from the number read and from delta
     dl = [l for l, nm in cr.names.items() if nm == 'delta' and 1 <= l <= cr.argc]
